@@ -2,7 +2,7 @@
 
 use crate::common::*;
 
-pub fn units(tier: &str, _seed: u64) -> Vec<String> {
+pub fn units(tier: &str, seed: u64) -> Vec<String> {
     let shapes: &[&str] = &[
         "U:CAL:ELECTRICIDAD",
         "U:CAL:ELECTRICIDAD;P:EL_INSITU",
@@ -17,6 +17,10 @@ pub fn units(tier: &str, _seed: u64) -> Vec<String> {
         v.push(unit(&[("shape", s), ("n", "1"), ("fs", "PEN"), ("k", "0"), ("lm", "0")]));
     }
     v.push(unit(&[("shape", shapes[1]), ("n", "1"), ("fs", "CAN"), ("k", "0"), ("lm", "1")]));
+    // a seed-selected slice of the block catalogue
+    for s in catalogue(seed ^ 0xC13, if tier == "thorough" { 12 } else { 3 }, &[]).iter() {
+        v.push(unit(&[("shape", s), ("n", "1"), ("fs", "PEN"), ("k", "0"), ("lm", "0"), ("bud", "90")]));
+    }
     if tier == "thorough" {
         for s in shapes {
             for fs in ["BAL", "CAN", "CEU"] {
@@ -51,12 +55,17 @@ pub fn scenario(u: &Unit) -> String {
         }
     }
     let noise = k(1.0e-3) * mag;
-    let above = noise.le_(tot);
-    let eps = k(1.0e-5);
+    let above = noise.le_(tot).and(zero.lt_(tot));
+    // the perimeters are sums in which large terms may cancel (production that is exported again, the input of a
+    // cogenerator whose electricity is exported): the comparisons allow the rounding of those terms (factors <= 3,
+    // a few dozen roundings) relative to the total, on top of 1e-5; with `above` that is at most about 1e-2 and is
+    // 1e-5 when nothing cancels
+    let cond = k(96.0 * f32::EPSILON) * mag;
+    let eps = k(1.0e-5) + cond / tot;
     ob("rer=ren/(ren+nren)", tot.eq_(zero).or(ep.rer.ident(ren / tot)));
     ob("tot=0=>rer=0", tot.eq_(zero).implies(ep.rer.ident(zero)));
-    ob("ren>=0", above.clone().implies(zero.le_(ren)));
-    ob("nren>=0", above.clone().implies(zero.le_(nren)));
+    ob("ren>=0", above.clone().implies((zero - cond).le_(ren)));
+    ob("nren>=0", above.clone().implies((zero - cond).le_(nren)));
     ob("0<=rer<=1", above.clone().implies((zero - eps).le_(ep.rer).and(ep.rer.le_(one + eps))));
     ob("0<=rer_onst", above.clone().implies((zero - eps).le_(ep.rer_onst)));
     ob("rer_onst<=rer_nrb", above.clone().implies(ep.rer_onst.le_(ep.rer_nrb + eps)));
